@@ -5,6 +5,9 @@ import (
 	"context"
 	"encoding/base64"
 	"fmt"
+	"github.com/transparency-dev/witness/internal/persistence"
+	"github.com/transparency-dev/witness/verifmc/choice"
+	"github.com/transparency-dev/witness/verifmc/lspwrap"
 	"net/http"
 	"net/http/httptest"
 	"strings"
@@ -228,6 +231,7 @@ func c10(tier string) int {
 	c10Malformed(run, u, gen, la, lb)
 	c10RateLimit(run, u, gen, la, lb)
 	c10Overlap(run, u, gen, la, lb)
+	c10Faults(run, u, gen, la, lb)
 	c10EndToEnd(run, u, gen, la, lb)
 	for _, c := range []string{"accepted->200", "no-valid-signature->403", "unknown-log->404", "old-size-invalid->400", "stale->409", "root-mismatch->409", "invalid-proof->422", "malformed->400"} {
 		if run.HistGet("expected_answers", c) == 0 {
@@ -239,7 +243,7 @@ func c10(tier string) int {
 	run.Set("traces_validated_against_impl", trans)
 	run.Set("evaluations", trans+run.Get("malformed_bodies")+run.Get("rate_limit_requests"))
 	run.Set("exhaustive", true)
-	run.Set("rule", fmt.Sprintf("explicit-state BFS where every transition is an HTTP request to the real add-checkpoint handler (built as FeedBastion builds it, behind the same 16 KiB MaxBytesHandler; bodies delivered in one piece with Content-Length in the in-memory run and as a chunked upload one byte per Read in the sql run, malformed bodies both ways; plus every ordered pair of 7 requests overlapped deterministically inside one handler: B served completely while A is between body parsing and the witness, answers compared with the sequential order on a twin) in front of the real witness behind the real witnessAdapter; states are witness states reached through the endpoint (sizes 0..%d, forks at 0 and 3, both stores); alphabet = the C01 alphabet rendered as request bodies + unknown origin; oracle = wmodel composed with the protocol's status map, 200 bodies verified as cosignature lines over the submitted text, 409 stale bodies compared with the true size; plus malformed bodies and three rate-limit regimes. distinct_nontrivial = distinct (state, expected answer, request)", n))
+	run.Set("rule", fmt.Sprintf("explicit-state BFS where every transition is an HTTP request to the real add-checkpoint handler (built as FeedBastion builds it, behind the same 16 KiB MaxBytesHandler; bodies delivered in one piece with Content-Length in the in-memory run and as a chunked upload one byte per Read in the sql run, malformed bodies both ways; plus every ordered pair of 7 requests overlapped deterministically inside one handler: B served completely while A is between body parsing and the witness, answers compared with the sequential order on a twin; plus four requests under every placement of up to two interface-level storage faults: 200 only if the store holds the submitted checkpoint) in front of the real witness behind the real witnessAdapter; states are witness states reached through the endpoint (sizes 0..%d, forks at 0 and 3, both stores); alphabet = the C01 alphabet rendered as request bodies + unknown origin; oracle = wmodel composed with the protocol's status map, 200 bodies verified as cosignature lines over the submitted text, 409 stale bodies compared with the true size; plus malformed bodies and three rate-limit regimes. distinct_nontrivial = distinct (state, expected answer, request)", n))
 	run.Assumption("the search is in process (httptest recorder); a 53-request transition tour (every verdict class in every state along none -> 2 -> 4 -> 6 -> 8) is also sent over a real TLS 1.3 + HTTP/2 reverse connection through the exported FeedBastion and compared, answer by answer, with the in-process handler on a twin witness")
 	return run.Finish()
 }
@@ -471,4 +475,92 @@ func c10Overlap(run *ev.Run, u *uni.U, gen *wh.CPGen, la, lb wh.LogCfg) {
 			chk("B", b, gotB, wantB)
 		}
 	}
+}
+
+// c10Faults: "200 only when the submitted checkpoint was accepted" under
+// storage failures - for a few requests, every placement of up to two
+// interface-level storage faults inside the witness behind the handler: a 200
+// answer means the store holds the submitted text (and the body is a valid
+// cosignature over it); any other answer to a faulted request leaves the
+// state unchanged (unless the fault took effect before it was reported).
+func c10Faults(run *ev.Run, u *uni.U, gen *wh.CPGen, la, lb wh.LogCfg) {
+	m := u.Main
+	type reqT struct {
+		name  string
+		old   int
+		n     int
+		proof [][]byte
+	}
+	reqs := []reqT{{"first use", 0, 2, nil}, {"growth 2->4", 2, 4, m.Proof(2, 4)}, {"refresh @2", 2, 2, nil}, {"bad proof 2->4", 2, 4, m.Proof(1, 4)}}
+	var n int64
+	for _, store := range []string{"mem", "sql"} {
+		for _, rq := range reqs {
+			st, err := choice.Explore(2, func(c *choice.C) {
+				active, afterEffect := false, false
+				cfg := wh.Config{Store: store, Logs: []wh.LogCfg{la, lb}}
+				cfg.Wrap = func(p persistence.LogStatePersistence) persistence.LogStatePersistence {
+					return lspwrap.New(p, lspwrap.Hooks{Fault: func(op, id string) (error, bool) {
+						if !active {
+							return nil, false
+						}
+						opts := ifaceOptions(op, true)
+						if len(opts) == 1 {
+							return nil, false
+						}
+						switch k := opts[c.Choose(len(opts), op)]; k {
+						case "ok":
+							return nil, false
+						case "err-after-effect":
+							afterEffect = true
+							return errInjected, true
+						default:
+							return faultErr(k), false
+						}
+					}})
+				}
+				e := wh.NewEnv(u, cfg)
+				defer e.Close()
+				h := bastion.VerifNewHandler(omniwitness.VerifWitnessAdapter(e.W), c10Logs(la, lb), u.W1.CosigVerif, rate.Inf, 1, true)
+				if rq.old > 0 {
+					cp, _ := gen.Get(la, m, rq.old, "plain")
+					if r := c10Serve(h, c10Body(0, nil, cp)); r.Status != 200 {
+						ev.Internal("C10 faults: seeding failed with %d", r.Status)
+					}
+				}
+				cp, meta := gen.Get(la, m, rq.n, "plain")
+				before := e.Snap()
+				active = true
+				resp := c10Serve(h, c10Body(uint64(rq.old), rq.proof, cp))
+				active = false
+				after := e.Snap()
+				faulted := c.Deviations() > 0
+				run.Hist("fault_answers", fmt.Sprintf("%s faulted=%v -> %d", rq.name, faulted, resp.Status))
+				rep := map[string]any{"kind": "http-fault", "store": store, "request": rq.name, "faults": c.Trace(), "choices": c.Choices()}
+				sig := func(k string) string {
+					return fmt.Sprintf("%s request=%s status=%d store=%s", k, strings.ReplaceAll(rq.name, " ", "-"), resp.Status, store)
+				}
+				if resp.Status == 200 {
+					text, _, ok := uni.SplitNote([]byte(after.ByID[la.ID()]))
+					if !ok || text != meta.Text {
+						run.Report(sig("200-but-not-stored"), fmt.Sprintf("%s with storage faults %v: answered 200 but the store does not hold the submitted checkpoint", rq.name, c.Trace()), rep)
+						return
+					}
+					lines := strings.Split(strings.TrimSuffix(resp.Body, "\n"), "\n")
+					if l, v := countValid(u.W1.CosigVerif, meta.Text, lines); l < 1 || v != l {
+						run.Report(sig("200-body-signature-under-fault"), fmt.Sprintf("%s with storage faults %v: 200 body is not a valid cosignature over the submitted text", rq.name, c.Trace()), rep)
+					}
+					return
+				}
+				if !after.Equal(before) && !afterEffect {
+					run.Report(sig("not-200-but-state-changed"), fmt.Sprintf("%s with storage faults %v: answered %d but the stored state changed", rq.name, c.Trace(), resp.Status), rep)
+				}
+			})
+			if err != nil {
+				ev.Internal("C10 fault exploration: %v", err)
+			}
+			n += st.Executions
+		}
+	}
+	run.Set("http_fault_executions", n)
+	run.Add("evaluations", n)
 }
